@@ -154,11 +154,7 @@ Definition in_dop (T : class_table) (id c : nat) (d : list (key * node)) (o : do
       end
   end.
 
-Inductive nop := OL (o : lop) | OD (o : dop).
-Definition nop_is_read (o : nop) : bool :=
-  match o with OL o => lop_is_read o | OD o => dop_is_read o end.
-Definition nop_no_load_at_root (o : nop) : bool :=     (* clear / reset on a root do not load *)
-  match o with OL LClear | OL (LReset _) | OD DClear | OD (DReset _) => true | _ => false end.
+Definition nop_no_load_at_root (o : nop) : bool := nop_no_load o.
 
 Definition pre_nop (T : class_table) (n : node) (o : nop) : option (option err) :=
   match n, o with
